@@ -1,9 +1,9 @@
 #!/bin/sh
-# usage: tools/matrix.sh <repo copy>   -- for every seeded change: apply it to the given COPY of the repository, run the
+# usage: tools/matrix.sh <repo copy> [glob, e.g. 'C*-[56]']   -- for every seeded change: apply it to the given COPY of the repository, run the
 # check of its property (plus checks named in extra.txt), record exit codes and first violation; undo.  Never touches /repo.
-R="$1"; cd "$(dirname "$0")/.." || exit 2
+R="$1"; PAT="${2:-C*}"; export VERIF_OUT=/tmp/mx_out_$$; cd "$(dirname "$0")/.." || exit 2
 [ -d "$R/.git" ] || [ -f "$R/.git" ] || { echo "need a git checkout"; exit 2; }
-for d in seeded/C*; do
+for d in seeded/$PAT; do
   id=$(basename "$d"); pid=${id%-*}
   git -C "$R" checkout -q -- . ; git -C "$R" apply "$PWD/$d/patch.diff" || { echo "$id APPLY-FAILED"; continue; }
   extra=""; [ -f "$d/extra.txt" ] && extra=$(cat "$d/extra.txt")
@@ -13,4 +13,4 @@ for d in seeded/C*; do
   done
   git -C "$R" checkout -q -- .
 done
-rm -f /tmp/mx_$$.log
+rm -rf /tmp/mx_$$.log /tmp/mx_out_$$
